@@ -1187,7 +1187,7 @@ impl hb_buffer_t {
             self.idx -= count;
             self.out_len -= count;
 
-            for j in 0..count {
+            for j in (0..count).rev() {
                 self.info[self.idx + j] = self.out_info()[self.out_len + j];
             }
         }
